@@ -114,7 +114,11 @@ def run(tier: str, seed: int) -> int:
 
     # ---------------- (a) build_query on every dialect
     n = 120 if tier == "quick" else 3000
-    sp = [(seed * 1_000_003 + i, campaign.PROFILES[i % 6]) for i in range(n)]
+    # the six general profiles, and the scenario programs whose shapes make the SQL compiler take its rarer paths (re-selected
+    # union operands, forced subqueries with hidden / grouping columns, renamed join keys, constant keys)
+    c19_profiles = list(campaign.PROFILES[:6]) + ["scen_union_agg_right", "scen_subq_group", "scen_subq_hidden", "scen_union_distinct",
+                                                  "scen_join_suffix", "scen_const_key", "scen_union_const", "scen_selfjoin_agg"]
+    sp = [(seed * 1_000_003 + i, c19_profiles[i % len(c19_profiles)]) for i in range(n)]
     results = campaign.run_programs(sp, "oracle_c19")
     st = campaign.stats_of(results)
     known_hits, new = {}, []
